@@ -150,8 +150,10 @@ func (prom *Prometheus) RangeQuery(ctx context.Context, expr string, params Rang
 		go func() {
 			var result queryResult
 			query.result = make(chan queryResult)
+			verifTrace("enq", key, query.result)
 			prom.queries <- query
 			result = <-query.result
+			verifTrace("got", key, query.result)
 			results <- result
 
 			if result.err != nil {
